@@ -769,6 +769,7 @@ func main() {
 		[]h.Section{
 			{Name: "manager-bfs", Body: bfs("manager-bfs", 3, false, 3000000), Bound: -1, Serial: true},
 			{Name: "manager-bfs-deep-alphabet", Body: bfs("manager-bfs-deep-alphabet", 3, true, 3000000), Bound: -1, Serial: true, Tiers: "thorough"},
+			{Name: "handles-from-keysets", Body: parsedKeysetsSection, Bound: -1},
 			{Name: "manager-bfs-budget4", Body: bfs("manager-bfs-budget4", 4, false, 1500000), Bound: -1, Serial: true, Tiers: "thorough"},
 		})
 }
